@@ -66,6 +66,35 @@ func (s signer) SignWithAlgorithm(_ io.Reader, data []byte, algorithm string) (*
 	return s.agent.SignWithFlags(s.cert.Key, data, flags)
 }
 
+// upstreamSigner wraps a signer of the underlying agent. The signers handed out by the
+// crypto/ssh/agent client talk to the shared connection under the client's own mutex only, which
+// Forward does not take; routing the request through the shim agent keeps every user of the
+// connection under the shim's lock.
+type upstreamSigner struct {
+	pub   ssh.PublicKey
+	agent agent.ExtendedAgent
+}
+
+// PublicKey returns the public key (or certificate) held by the underlying agent.
+func (s upstreamSigner) PublicKey() ssh.PublicKey { return s.pub }
+
+// Sign signs the data by the key in the underlying agent.
+func (s upstreamSigner) Sign(_ io.Reader, data []byte) (*ssh.Signature, error) {
+	return s.agent.Sign(s.pub, data)
+}
+
+// SignWithAlgorithm signs the data by the key in the underlying agent with the specified algorithm.
+func (s upstreamSigner) SignWithAlgorithm(_ io.Reader, data []byte, algorithm string) (*ssh.Signature, error) {
+	var flags agent.SignatureFlags
+	switch algorithm {
+	case ssh.KeyAlgoRSASHA256:
+		flags = agent.SignatureFlagRsaSha256
+	case ssh.KeyAlgoRSASHA512:
+		flags = agent.SignatureFlagRsaSha512
+	}
+	return s.agent.SignWithFlags(s.pub, data, flags)
+}
+
 type hashcode [sha256.Size]byte
 
 func hash(data []byte) hashcode {
@@ -540,13 +569,13 @@ func (s *Server) Signers() ([]ssh.Signer, error) {
 	}
 	for _, signer := range uss {
 		if !s.noUpstreamSSHCACert {
-			signers = append(signers, signer)
+			signers = append(signers, upstreamSigner{signer.PublicKey(), s})
 			continue
 		}
 
 		cert, err := keyutil.CastSSHPublicKeyToCertificate(signer.PublicKey())
 		if err != nil {
-			signers = append(signers, signer)
+			signers = append(signers, upstreamSigner{signer.PublicKey(), s})
 			continue
 		}
 
@@ -559,7 +588,7 @@ func (s *Server) Signers() ([]ssh.Signer, error) {
 			s.upstreamSSHCACertCache[keyHash] = struct{}{}
 			continue
 		}
-		signers = append(signers, signer)
+		signers = append(signers, upstreamSigner{signer.PublicKey(), s})
 	}
 
 	sort.Slice(signers, func(i, j int) bool {
